@@ -51,13 +51,18 @@ example :
 
 /-! ## no hang -/
 
-/-- Request numbers are never reused while in flight: after any schedule every request number occurs at most once
-    among the requests on the wire, the queued responses and the response being dispatched; a registered extent is
-    keyed by the number of a request that is still in flight, and an answer whose extent is not registered yet
-    belongs to a prefetch thread that is between "packet sent" and "extent registered". -/
+/-- Request numbers are never reused while in flight.  The model's allocation step (`tAlloc`, `allocSync`) takes a
+    fresh number *and* makes it the id of the packet in one atomic action; that this is what the code does is read
+    from the AST of `SFTPClient._async_request` on every run (`idReadUnderLock`: every use of `self.request_number`
+    — the id written into the message, the registration in `_expecting`, the increment — lies inside the
+    `self._lock` region) and is part of this theorem.  Then, after any schedule: every request number occurs at most
+    once among the requests on the wire, the queued responses and the response being dispatched; a registered
+    extent is keyed by the number of a request that is still in flight; and an answer whose extent is not registered
+    yet belongs to a prefetch thread that is between "packet sent" and "extent registered". -/
 theorem request_numbers_unique (file : Bytes) (maxReq : Nat) (acts : List Act) (hcaps : ∀ a ∈ acts, actOK a) :
+    PV.Generated.C28.idReadUnderLock = true ∧
     Live (run (init file maxReq) acts) ∧ Uniq (run (init file maxReq) acts) :=
-  run_live_uniq (init_live file maxReq) (init_uniq file maxReq) acts hcaps
+  ⟨by decide, run_live_uniq (init_live file maxReq) (init_uniq file maxReq) acts hcaps⟩
 
 /-- **A blocked reader is never stuck.**  After any schedule of any program whose caps are `None` or ≥ 1: whenever
     the reader cannot take its next step — it waits for a response packet (inside `_read_prefetch` or inside a
